@@ -89,6 +89,64 @@ def check_select(case):
     return v, 'ok' if not v else 'violated', True
 
 
+def check_delete_all(case):
+    """resources=None: every resource that has the field loses it (two resources with the same fields)."""
+    fields, req, regex = case['fields'], case['req'], case['regex']
+    rows = table(fields)
+    st, other = state(fields, rows)
+    label = 'delete_fields(%r, regex=%s, resources=None) on two resources with fields %r' % (req, regex, fields)
+    try:
+        keep = [f for f in fields if not any(fm(p, regex, f) for p in req)]
+    except re.error:
+        return [], 'rejected', False
+    kind, out = run_step(st, core.dataflows.delete_fields(copy.deepcopy(req), resources=None, regex=regex))
+    if kind == 'exc':
+        return [('raises/delete-all', '%s raises %s: %s' % (label, core.exc_sig(out), str(out)[:100]))], 'violated', True
+    v = []
+    for i, (name, src_rows) in enumerate((('other', other), ('t', rows))):
+        gf = [f['name'] for f in out.desc['resources'][i]['schema']['fields']]
+        exp = [{f: r[f] for f in keep} for r in src_rows]
+        if gf != keep:
+            v.append(('schema/delete-all', '%s: resource %r declares %r, expected %r' % (label, name, gf, keep)))
+            break
+        if enc_rows(out.rows[i]) != enc_rows(exp):
+            v.append(('values/delete-all', '%s: resource %r rows %r, expected %r' % (label, name, out.rows[i], exp)))
+            break
+    return v, 'ok' if not v else 'violated', len(keep) != len(fields)
+
+
+def check_select_all(case):
+    fields, req, regex = case['fields'], case['req'], case['regex']
+    rows = table(fields)
+    st, other = state(fields, rows)
+    label = 'select_fields(%r, regex=%s, resources=None) on two resources with fields %r' % (req, regex, fields)
+    sel, remaining = [], list(fields)
+    try:
+        for p in req:
+            for f in list(remaining):
+                if fm(p, regex, f):
+                    sel.append(f)
+                    remaining.remove(f)
+    except re.error:
+        return [], 'rejected', False
+    kind, out = run_step(st, core.dataflows.select_fields(copy.deepcopy(req), resources=None, regex=regex))
+    if not sel:
+        return [], 'rejected-empty', False
+    if kind == 'exc':
+        return [('raises/select-all', '%s raises %s: %s' % (label, core.exc_sig(out), str(out)[:100]))], 'violated', True
+    v = []
+    for i, (name, src_rows) in enumerate((('other', other), ('t', rows))):
+        gf = [f['name'] for f in out.desc['resources'][i]['schema']['fields']]
+        exp = [{f: r[f] for f in sel} for r in src_rows]
+        if gf != sel:
+            v.append(('schema/select-all', '%s: resource %r declares %r, expected %r' % (label, name, gf, sel)))
+            break
+        if enc_rows(out.rows[i]) != enc_rows(exp):
+            v.append(('values/select-all', '%s: resource %r rows differ' % (label, name)))
+            break
+    return v, 'ok' if not v else 'violated', True
+
+
 def check_delete(case):
     fields, req, regex = case['fields'], case['req'], case['regex']
     rows = table(fields)
@@ -150,7 +208,7 @@ def check_add_field(case):
     return v, 'ok' if not v else 'violated', True
 
 
-NUMV = [2, 3.5, None]
+NUMV = [2, 3.5, None, 0]
 
 
 def check_computed(case):
@@ -293,6 +351,9 @@ def cases(tier):
             for regex in (True, False):
                 out.append({'proc': 'select', 'fields': fs, 'req': req, 'regex': regex})
                 out.append({'proc': 'delete', 'fields': fs, 'req': req, 'regex': regex})
+                if len(req) == 1 or len(fs) == 2:
+                    out.append({'proc': 'delete_all', 'fields': fs, 'req': req, 'regex': regex})
+                    out.append({'proc': 'select_all', 'fields': fs, 'req': req, 'regex': regex})
         maps = [[[a, 'z']] for a in fs] + [[['a(.*)', r'x\1']], [['(.+)', r'\1_']], [[fs[0], fs[1]]],
                                             [[fs[0], 'n1'], [fs[1], 'n2']], [['a|b', 'w']],
                                             [[fs[0], fs[1]], [fs[1], fs[0]]],            # swap
